@@ -1491,6 +1491,11 @@ protected:
 
     virtual void internal_pop(buffer_operation *op) {
         __TBB_ASSERT(op->elem, nullptr);
+        if (this->my_reserved && this->my_tail - this->my_head == 1) {
+            // The only item in the buffer is the reserved one: it cannot be taken
+            op->status.store(FAILED, std::memory_order_release);
+            return;
+        }
 #if __TBB_PREVIEW_FLOW_GRAPH_TRY_PUT_AND_WAIT
         bool pop_result = op->metainfo ? this->pop_back(*(op->elem), *(op->metainfo))
                                        : this->pop_back(*(op->elem));
